@@ -32,7 +32,7 @@ FIELDS = ["k1", "k2"]
 STATES = ["lookup", "pass", "deliver"]
 ERROR_SCOPES = ("recv", "fetch")                  # of the four scopes used here (RECV HIT MISS PASS FETCH)
 RESTART_SCOPES = ("recv", "fetch", "deliver", "error")
-HIDDEN = [("@obj.status", "I"), ("@obj.response", "S")]   # ctx cells only `error` writes; read by the harness, never by a program
+HIDDEN = [("@obj.status", "I"), ("@obj.response", "S"), ("@obj.body", "S")]   # ctx cells only `error` writes; read by the harness, never by a program
 SCOPES = {
     "recv": {"globals": [("req.max_stale_if_error", "R"), ("req.max_stale_while_revalidate", "R"),
                          ("req.hash_always_miss", "B"), ("req.hash_ignore_busy", "B")],
@@ -225,6 +225,10 @@ class Prog:
                 ln = emit(s[1], ind)
             elif k == "add":
                 ln = emit("add %s = %s;" % (self.name_text(s[1]), self.etext(s[2])), ind)
+            elif k == "unsetwild":
+                ln = emit("unset %s.http.%s*;" % (self.objs[s[1]], s[2].decode()), ind)
+            elif k == "synth":
+                ln = emit("synthetic %s;" % self.etext(s[1]), ind)
             elif k == "restart":
                 ln = emit("restart;", ind)
                 linemap[ln] = ("stmt", s, frame)
@@ -349,6 +353,10 @@ class Prog:
             return "(nop)"
         if k == "add":
             return "(add %d %d %s)" % (s[1][1], s[1][2], self.esexp(s[2]))
+        if k == "unsetwild":
+            return '(unsetwild %d "%s")' % (s[1], s[2].hex())
+        if k == "synth":
+            return "(synth %d %s)" % (self.gb, self.esexp(s[1]))
         if k == "restart":
             return "(restart %d)" % int(self.scope in RESTART_SCOPES)
         if k == "error":
@@ -833,6 +841,13 @@ class StoreGen:
                 if rhs[0] == "lit" and not rhs[1][1]:
                     rhs = ("lit", ("S", b"x", False, True), '"x"')
                 return ("add", ("h", r.randrange(len(self.p.objs)), r.randrange(len(HDRS))), rhs)
+            if kk < 0.55:
+                # unset <obj>.http.<prefix>*: the prefix as written, in either case, also one that matches nothing
+                self._c("dim:unset-wildcard")
+                return ("unsetwild", r.randrange(len(self.p.objs)), r.choice([b"h", b"H", b"ha", b"hA", b"HB", b"hc", b"hx", b"x", b"hab"]))
+            if kk < 0.62 and self.p.scope == "error":
+                self._c("dim:synthetic")
+                return ("synth", self.lit("S") if r.random() < 0.4 else self.expr(fr, "S", 1, top=True))
             if kk < 0.65:
                 self.nlabel = getattr(self, "nlabel", 0) + 1
                 self._c("dim:goto")
@@ -964,6 +979,7 @@ class StoreGen:
         p.globals += p.hidden
         p.gs = [n for n, _ in p.globals].index("@obj.status")
         p.gr = [n.lstrip("@") for n, _ in p.globals].index("obj.response")
+        p.gb = [n for n, _ in p.globals].index("@obj.body")
         p.objs = list(SCOPES[p.scope]["objs"])
         if self.wild:
             p.extra_pool = ["req.url", "req.url.path", "req.url.qs", "req.method", "@fastly.error", "@workspace", "req.restarts"]
@@ -1405,7 +1421,7 @@ def operand_matrix():
                     p.scope = scope
                     p.globals = list(HIDDEN)
                     p.hidden = list(HIDDEN)
-                    p.gs, p.gr = 0, 1
+                    p.gs, p.gr, p.gb = 0, 1, 2
                     p.objs = list(SCOPES[scope]["objs"])
                     p.extra_pool = ["@fastly.error", "req.restarts"] + ([a] if src != "local" else [])
                     tys = {0: ty, 1: ty, 2: "S", 3: "B", 4: "R", 5: ty, 6: "T"}
